@@ -19,13 +19,13 @@ Record case := K {
   k_api : api; k_ad : option bool; k_slots : option bool; k_frozen : bool;
   k_init : tri; k_repr : tri; k_str : option bool; k_cmp : tri; k_eq : tri;
   k_order : option tri; k_hash : tri; k_uhash : tri; k_gs : tri; k_ma : option bool;
-  k_own : list dn; k_inh : list dn;
+  k_own : list dn; k_inh : list dn; k_base : basek;
   k_seen : result; k_frame : bool }.
 
 Definition cfg_of (k : case) : cfg :=
   C (k_api k) (k_ad k) (k_slots k) (k_frozen k) (k_init k) (k_repr k) (k_str k) (k_cmp k)
     (k_eq k) (k_order k) (k_hash k) (k_uhash k) (k_gs k) (k_ma k)
-    (dset_of (k_own k)) (dset_of (k_inh k)).
+    (dset_of (k_own k)) (dset_of (k_inh k)) (k_base k).
 
 Definition model_of (k : case) : result * bool := (decide (cfg_of k), true).
 
